@@ -46,6 +46,17 @@ type gen struct {
 	nextID int
 	feat   map[string]bool
 	css    strings.Builder
+	oofMax int // maximal number of floats / absolutely positioned boxes (KF15-2 needs two)
+	oof    int
+}
+
+// oofOK reports whether one more out-of-flow box may be generated.
+func (g *gen) oofOK() bool {
+	if g.oof >= g.oofMax {
+		return false
+	}
+	g.oof++
+	return true
 }
 
 func (g *gen) newID() string {
@@ -210,9 +221,9 @@ func (g *gen) block(depth int) string {
 		g.feat["headings"] = true
 		lvl := r.Range(1, 4)
 		return fmt.Sprintf("<h%d%s>%s</h%d>", lvl, g.idAttr(), text(r, r.Range(1, 4)), lvl)
-	case k == 6:
+	case k == 6 && g.oofOK():
 		g.feat["float"] = true
-		return `<div` + g.idAttr() + g.style("float:"+rng.Pick(r, "left", "right"), "width:"+px(r, 40, 220)) + ">" + g.para() + " " + text(r, r.Range(0, 60)) + "</div>"
+		return `<div` + g.idAttr() + g.style("float:"+rng.Pick(r, "left", "right"), "width:"+px(r, 40, 220)) + ">" + g.para() + " " + text(r, r.Range(0, 30)) + "</div>"
 	case k == 7:
 		g.feat["table"] = true
 		return g.table()
@@ -226,18 +237,18 @@ func (g *gen) block(depth int) string {
 		}
 		fmt.Fprintf(&b, "</%s>", tag)
 		return b.String()
-	case k == 9:
+	case k == 9 && g.oofOK():
 		g.feat["abs"] = true
 		return `<div style="position:relative;height:` + px(r, 20, 120) + `"><div` + g.idAttr() + g.style("position:absolute", "top:"+px(r, 0, 40), "left:"+px(r, 0, 200)) + ">" + text(r, 3) + "</div>" + text(r, 5) + "</div>"
 	case k == 10:
 		g.feat["tall"] = true // forces page breaks
-		return `<div` + g.idAttr() + g.style("height:"+px(r, 150, 700)) + ">" + text(r, 4) + "</div>"
+		return `<div` + g.idAttr() + g.style("height:"+px(r, 80, 400)) + ">" + text(r, 4) + "</div>"
 	case k == 11:
 		g.feat["break"] = true
 		return `<div style="break-before:` + rng.Pick(r, "page", "left", "right", "avoid") + `"` + g.idAttr() + ">" + g.para() + "</div>"
 	case k == 12:
 		g.feat["hyphens"] = true
-		return `<p lang="` + rng.Pick(r, "en", "en", "fr", "de") + `" style="hyphens:auto;width:` + px(r, 30, 120) + `;text-align:justify">` + text(r, r.Range(8, 40)) + "</p>"
+		return `<p lang="` + rng.Pick(r, "en", "en", "fr", "de") + `" style="hyphens:auto;width:` + px(r, 30, 120) + `;text-align:justify">` + text(r, r.Range(8, 25)) + "</p>"
 	case k == 13:
 		g.feat["grid"] = true
 		var b strings.Builder
@@ -262,7 +273,7 @@ func (g *gen) block(depth int) string {
 		return b.String()
 	case k == 15:
 		g.feat["columns"] = true
-		return `<div style="columns:` + rng.Pick(r, "2", "3", "100px") + `"` + g.idAttr() + ">" + text(r, r.Range(20, 120)) + "</div>"
+		return `<div style="columns:` + rng.Pick(r, "2", "3", "100px") + `"` + g.idAttr() + ">" + text(r, r.Range(10, 60)) + "</div>"
 	case k == 16:
 		g.feat["running"] = true
 		return `<div class="run"` + g.idAttr() + ">" + text(r, 2) + "</div>"
@@ -274,9 +285,9 @@ func (g *gen) block(depth int) string {
 		}
 		b.WriteString("</div>")
 		return b.String()
-	case k == 18:
+	case k == 18 && g.oofOK():
 		g.feat["longfloat"] = true // a float taller than the page: brokenOutOfFlow
-		return `<div style="float:` + rng.Pick(r, "left", "right") + `;width:` + px(r, 60, 160) + `"` + g.idAttr() + ">" + text(r, r.Range(150, 400)) + "</div>"
+		return `<div style="float:` + rng.Pick(r, "left", "right") + `;width:` + px(r, 60, 160) + `"` + g.idAttr() + ">" + text(r, r.Range(30, 110)) + "</div>"
 	}
 	return "<p>" + g.para() + "</p>"
 }
@@ -322,11 +333,14 @@ type Doc struct {
 }
 
 func genDoc(r *rng.R, id int) Doc {
-	g := &gen{r: r, feat: map[string]bool{}}
+	g := &gen{r: r, feat: map[string]bool{}, oofMax: 1000}
 	seed := r.Seed()
+	if r.P(3, 5) {
+		g.oofMax = 1 // at most one float/abspos: the known defect KF15-2 cannot occur, any difference is new
+	}
 	var css strings.Builder
 	// page geometry: small pages so that most documents paginate
-	fmt.Fprintf(&css, "@page{size:%dpx %dpx;margin:%dpx", r.Range(200, 500), r.Range(150, 600), r.Range(5, 40))
+	fmt.Fprintf(&css, "@page{size:%dpx %dpx;margin:%dpx", r.Range(200, 500), r.Range(180, 600), r.Range(5, 40))
 	if r.P(1, 2) {
 		g.feat["margin-boxes"] = true
 		fmt.Fprintf(&css, ";@top-center{content:%s}", rng.Pick(r, `"p. " counter(page) " / " counter(pages)`, `string(title)`, `element(hdr)`, `counter(page, lower-roman)`))
@@ -369,9 +383,9 @@ func genDoc(r *rng.R, id int) Doc {
 		css.WriteString(`html{font-family:` + rng.Pick(r, "DejaVu Serif", "DejaVu Sans Mono", "weasyprint", "serif") + `}`)
 	}
 	var body strings.Builder
-	n := r.Range(1, 10)
-	if r.P(1, 6) {
-		n = r.Range(10, 30)
+	n := r.Range(1, 6)
+	if r.P(1, 12) {
+		n = r.Range(7, 16)
 	}
 	for i := 0; i < n; i++ {
 		body.WriteString(g.block(0))
@@ -389,6 +403,9 @@ func genDoc(r *rng.R, id int) Doc {
 	var feats []string
 	for f := range g.feat {
 		feats = append(feats, f)
+	}
+	if g.oofMax == 1 {
+		feats = append(feats, "oof<=1")
 	}
 	sortStrings(feats)
 	return Doc{ID: id, Seed: seed, HTML: html, Feats: feats}
